@@ -394,6 +394,10 @@ impl Store {
 
         // Handle broadcast subscription and heartbeat
         if let Some(broadcast_rx) = broadcast_rx {
+            // Dropped when the live task ends (limit reached, receiver lagged, history
+            // cancelled): the heartbeat must not keep the stream open after that
+            let (live_ended_tx, mut live_ended_rx) = tokio::sync::oneshot::channel::<()>();
+
             {
                 let tx = tx.clone();
                 let limit = options.limit;
@@ -401,6 +405,8 @@ impl Store {
                 let vlive = vreader.as_ref().map(|r| format!("{r}.live"));
 
                 tokio::spawn(async move {
+                    let _live_ended_tx = live_ended_tx;
+
                     // If we have a done_rx, wait for historical processing
                     #[cfg(xs_verif)]
                     let vlive = vlive.as_deref();
@@ -524,9 +530,19 @@ impl Store {
                 let vhb = vreader.as_ref().map(|r| format!("{r}.hb"));
                 tokio::spawn(async move {
                     loop {
-                        tokio::time::sleep(duration).await;
+                        tokio::select! {
+                            _ = tokio::time::sleep(duration) => {}
+                            _ = &mut live_ended_rx => break,
+                        }
                         #[cfg(xs_verif)]
                         crate::verif::point(vhb.as_deref(), "hb.tick", serde_json::json!({}));
+                        // The live side may have ended while the timer fired
+                        if !matches!(
+                            live_ended_rx.try_recv(),
+                            Err(tokio::sync::oneshot::error::TryRecvError::Empty)
+                        ) {
+                            break;
+                        }
                         let frame =
                             Frame::builder("xs.pulse", options.context_id.unwrap_or(ZERO_CONTEXT))
                                 .id(scru128::new())
